@@ -118,16 +118,6 @@ theorem aztec_highlevel_inv (T : Tables) (hT : T = refTables) (reg : Nat → Boo
   subst hT
   exact AztecCompose.hld_script reg ops bits henc hok k hk
 
-/-- an op that is not FLG(n) -/
-def isPlain : Op → Bool
-  | .flg _ _ | .shFlg _ _ => false
-  | _ => true
-
-/-- a script without FLG(n): only data bytes -/
-def PlainScript (ops : List Op) : Prop := ∀ op ∈ ops, isPlain op = true
-
-instance (ops : List Op) : Decidable (PlainScript ops) := by unfold PlainScript; infer_instance
-
 theorem plain_items (ops : List Op) (h : PlainScript ops) :
     ∀ m, ∃ bss : List (List Nat),
       (scriptItems m ops).map toEvent = bss.map Event.bytes ∧
